@@ -22,9 +22,9 @@ GCS = ("zero", "copy", "sweep", "swiper")
 
 # (scenario, normal (n, k), stress (n, k)); stress sizes keep allocations <= ~3000
 SIZES = {
-    0: ((3000, 7), (250, 5)), 1: ((10, 60), (6, 8)), 2: ((120000, 16), (600, 8)), 3: ((20000, 12), (9000, 3)),
-    4: ((1500, 9), (150, 4)), 5: ((300, 7), (40, 5)), 6: ((200, 9), (25, 6)), 7: ((800, 6), (60, 3)),
-    8: ((4000, 13), (300, 7)), 9: ((4, 1500), (3, 60)),
+    0: ((3000, 7), (120, 5)), 1: ((10, 60), (5, 6)), 2: ((120000, 16), (300, 8)), 3: ((20000, 12), (4000, 3)),
+    4: ((1500, 9), (40, 4)), 5: ((300, 7), (15, 5)), 6: ((200, 9), (12, 6)), 7: ((800, 6), (30, 3)),
+    8: ((4000, 13), (100, 7)), 9: ((4, 1500), (3, 30)),
 }
 
 
@@ -58,8 +58,8 @@ def run(ctx):
                        "with TLABs on, stress collections happen at TLAB refills and slow-path allocations"]
     # ---- builds -------------------------------------------------------------------------------------------------
     src = open(os.path.join(VERIF, "vlib", "templates", "graphs.dora")).read()
-    nprog = ctx.pick(4, 24)
-    progs = c01.gen_programs(ctx, nprog, 24, stream="c03", feature_sets=c01.FEATURE_SETS[3:])
+    nprog = ctx.pick(3, 24)
+    progs = c01.gen_programs(ctx, nprog, 16, stream="c03", feature_sets=c01.FEATURE_SETS[3:])
     sources = [("graphs", src)] + [(n, p.source()) for n, p in progs]
     built, _ = progrun.compile_all("c03/build", sources, backends=progrun.BACKENDS, gcs=GCS)
     for name, b in built.items():
@@ -71,7 +71,7 @@ def run(ctx):
                 ctx.violation("c03:compile-failed:%s:%s:%s" % (key[0], key[1], first[:80]), "compile failed for %s %s:\n%s" % (name, key, progrun.compile_error_text(r)[-1200:]))
     # ---- jobs ---------------------------------------------------------------------------------------------------
     jobs, meta = [], {}
-    nseeds = ctx.pick(2, 10)
+    nseeds = ctx.pick(1, 8)
     per_cfg = ctx.pick(2, 5)
     jid = 0
     for sc in range(10):
@@ -107,6 +107,7 @@ def run(ctx):
                 meta[tag] = c.expect
                 jobs.append((tag, exe, [c.idx] + list(c.inputs), {"DORA_FLAGS": flags, "DORA_VERIF_STATS": os.path.join(d, "stats_%d.jsonl" % (jid % 64))}, None))
     # ---- run + judge --------------------------------------------------------------------------------------------
+    slow = []
     for tag, o in progrun.run_cases(jobs, timeout=ctx.pick(240, 600)):
         name, a, b, n, k, be, gc, flags = tag
         ctx.count("runs")
@@ -118,6 +119,7 @@ def run(ctx):
         if o.cls == "timeout":
             ctx.inconc("run watchdog: %s %s %s" % (name, a, cfg))
             continue
+        slow.append((round(o.wall, 1), str(name), str(a), cfg))
         ctx.observe(tag)
         exp = meta[tag]
         got_out = o.stdout.decode("utf-8", "replace")
@@ -143,6 +145,7 @@ def run(ctx):
                           files={"program.dora": src if name == "graphs" else by_prog[name].source(), "cmd.txt": "DORA_FLAGS='%s' <exe %s %s> %s\n" % (flags, be, gc, [a, b, n, k])})
         elif ctx.counters["runs"] % 211 == 1:
             ctx.sample({"what": what, "config": cfg, "stdout": got_out[:160]}, limit=6)
+    ctx.extra["slowest_runs"] = sorted(slow, reverse=True)[:8]
     # ---- hook statistics (what the monitors actually observed) ----------------------------------------------------
     tot = {}
     for fn in os.listdir(d):
